@@ -1582,4 +1582,236 @@ theorem map_rewrite (m : Option MapIn) (n2o : List (Nat × Nat)) (om : List Nat)
       exact hread x (by simp) hvx
 
 
+/-! ## S. `ItemVariationStore::subset` -/
+
+theorem collectRegionRefs_sorted (st : SubTable) (keys : List Nat) (acc : List Nat)
+    (h : acc.Pairwise (· < ·)) : (collectRegionRefs st keys acc).Pairwise (· < ·) := by
+  unfold collectRegionRefs
+  split
+  · exact h
+  · generalize st.regionIndexes.zipIdx = l
+    induction l generalizing acc with
+    | nil => simpa using h
+    | cons x l ih =>
+      simp only [List.foldl_cons]
+      apply ih
+      split
+      · exact h
+      · split
+        · exact sorted_setInsert _ h
+        · exact h
+
+theorem collectAll_sorted : ∀ (subs : List SubIn) (ims : List (List Nat)) (acc r : List Nat),
+    acc.Pairwise (· < ·) → collectAll subs ims acc = .ok r → r.Pairwise (· < ·) := by
+  intro subs ims
+  induction ims generalizing subs with
+  | nil =>
+    intro acc r h hr
+    simp only [collectAll, pure, Except.pure, Except.ok.injEq] at hr
+    subst hr; exact h
+  | cons im ims ih =>
+    intro acc r h hr
+    cases subs with
+    | nil => simp [collectAll] at hr
+    | cons s ss =>
+      cases s with
+      | ok st =>
+        simp only [collectAll] at hr
+        exact ih ss _ r (collectRegionRefs_sorted st im acc h) hr
+      | null =>
+        simp only [collectAll] at hr
+        exact ih ss _ r h hr
+      | bad => simp [collectAll] at hr
+
+theorem subsetStore_ok {axisCount : Nat} {regions : List (List (Int × Int × Int))} {subs : List SubIn}
+    {ims : List (List Nat)} {so : StoreOut} (h : subsetStore axisCount regions subs ims = .ok so) :
+    so.regionMap.Pairwise (· < ·) ∧ (∀ x ∈ so.regionMap, x < regions.length) ∧
+    so.regions = so.regionMap.map (fun r => regions.getD r []) ∧
+    subsetSubs so.regionMap subs ims = .ok so.subs := by
+  unfold subsetStore at h
+  by_cases c0 : ims.isEmpty = true
+  · simp [c0, bind, Except.bind, throw, throwThe, MonadExceptOf.throw] at h
+  · simp only [c0, bind, Except.bind, pure, Except.pure, Bool.false_eq_true, if_false] at h
+    cases hrefs : collectAll subs ims [] with
+    | error e => rw [hrefs] at h; cases h
+    | ok refs =>
+      rw [hrefs] at h
+      simp only [] at h
+      by_cases c1 : (refs.filter (· < regions.length)).isEmpty = true
+      · simp [c1, throw, throwThe, MonadExceptOf.throw] at h
+      · simp only [c1, Bool.false_eq_true, if_false] at h
+        cases hsubs : subsetSubs (refs.filter (· < regions.length)) subs ims with
+        | error e => rw [hsubs] at h; cases h
+        | ok outSubs =>
+          rw [hsubs] at h
+          simp only [] at h
+          by_cases c2 : outSubs.isEmpty = true
+          · simp [c2, throw, throwThe, MonadExceptOf.throw] at h
+          · simp only [c2, Bool.false_eq_true, if_false, Except.ok.injEq] at h
+            subst h
+            have hs := collectAll_sorted subs ims [] refs List.Pairwise.nil hrefs
+            refine ⟨List.Pairwise.filter _ hs, ?_, rfl, hsubs⟩
+            intro x hx
+            simpa using (List.mem_filter.mp hx).2
+
+/-- the number of retained subtables before subtable `j`. -/
+def usedBefore : List (List Nat) → Nat → Nat
+  | _, 0 => 0
+  | [], _ + 1 => 0
+  | im :: ims, j + 1 => (if im.length = 0 then 0 else 1) + usedBefore ims j
+
+/-- the outer indices of the retained subtables, ascending (shifted by `k`). -/
+def usedList : List (List Nat) → Nat → List Nat
+  | [], _ => []
+  | im :: ims, k => if im.length = 0 then usedList ims (k + 1) else k :: usedList ims (k + 1)
+
+theorem mem_usedList : ∀ (ims : List (List Nat)) (k j : Nat),
+    j ∈ usedList ims k ↔ k ≤ j ∧ j - k < ims.length ∧ (ims.getD (j - k) []).length ≠ 0 := by
+  intro ims
+  induction ims with
+  | nil => intro k j; simp [usedList]
+  | cons im ims ih =>
+    intro k j
+    unfold usedList
+    have hrec := ih (k + 1) j
+    by_cases him : im.length = 0
+    · simp only [him, if_true, hrec]
+      constructor
+      · rintro ⟨h1, h2, h3⟩
+        have e : j - k = (j - (k + 1)) + 1 := by omega
+        refine ⟨by omega, by simp; omega, ?_⟩
+        rw [e]; simpa using h3
+      · rintro ⟨h1, h2, h3⟩
+        have hne : j ≠ k := by
+          intro e; subst e; simp [him] at h3
+        have e : j - k = (j - (k + 1)) + 1 := by omega
+        rw [e] at h3 h2
+        exact ⟨by omega, by simpa using h2, by simpa using h3⟩
+    · simp only [him, if_false, List.mem_cons, hrec]
+      constructor
+      · rintro (rfl | ⟨h1, h2, h3⟩)
+        · simp [him]
+        · have e : j - k = (j - (k + 1)) + 1 := by omega
+          refine ⟨by omega, by simp; omega, ?_⟩
+          rw [e]; simpa using h3
+      · rintro ⟨h1, h2, h3⟩
+        by_cases hjk : j = k
+        · exact Or.inl hjk
+        · right
+          have e : j - k = (j - (k + 1)) + 1 := by omega
+          rw [e] at h3 h2
+          exact ⟨by omega, by simpa using h2, by simpa using h3⟩
+
+theorem usedList_sorted : ∀ (ims : List (List Nat)) (k : Nat), (usedList ims k).Pairwise (· < ·) := by
+  intro ims
+  induction ims with
+  | nil => intro k; simp [usedList]
+  | cons im ims ih =>
+    intro k
+    unfold usedList
+    split
+    · exact ih (k + 1)
+    · refine List.pairwise_cons.mpr ⟨?_, ih (k + 1)⟩
+      intro b hb
+      have := (mem_usedList ims (k + 1) b).mp hb
+      omega
+
+theorem idxOf_usedList : ∀ (ims : List (List Nat)) (k j : Nat), j ∈ usedList ims k →
+    (usedList ims k).idxOf j = usedBefore ims (j - k) := by
+  intro ims
+  induction ims with
+  | nil => intro k j h; simp [usedList] at h
+  | cons im ims ih =>
+    intro k j h
+    have hm := (mem_usedList (im :: ims) k j).mp h
+    unfold usedList at h ⊢
+    by_cases him : im.length = 0
+    · simp only [him, if_true] at h ⊢
+      have hk := (mem_usedList ims (k + 1) j).mp h
+      have e : j - k = (j - (k + 1)) + 1 := by omega
+      rw [ih (k + 1) j h, e, usedBefore]; simp [him]
+    · simp only [him, if_false] at h ⊢
+      rw [List.idxOf_cons]
+      by_cases hjk : k = j
+      · subst hjk; simp [usedBefore]
+      · have hb : (k == j) = false := by simp [hjk]
+        rw [hb]; simp only [cond_false]
+        have h' : j ∈ usedList ims (k + 1) := by
+          rcases List.mem_cons.mp h with e | h'
+          · exact absurd e.symm hjk
+          · exact h'
+        have hk := (mem_usedList ims (k + 1) j).mp h'
+        have e : j - k = (j - (k + 1)) + 1 := by omega
+        rw [ih (k + 1) j h', e, usedBefore]; simp [him]; omega
+
+/-- **(c) outer renumbering**: a sorted outer map whose members are exactly the subtables with a
+non-empty inner map sends each of them to its position in the written array. -/
+theorem idxOf_eq_usedBefore (om : List Nat) (ims : List (List Nat)) (hs : om.Pairwise (· < ·))
+    (hm : ∀ j, j ∈ om ↔ j < ims.length ∧ (ims.getD j []).length ≠ 0) (j : Nat) (hj : j ∈ om) :
+    om.idxOf j = usedBefore ims j := by
+  have e : om = usedList ims 0 := by
+    apply sorted_ext hs (usedList_sorted ims 0)
+    intro x
+    rw [hm, mem_usedList]; simp
+  rw [e] at hj ⊢
+  have := idxOf_usedList ims 0 j hj
+  simpa using this
+
+/-- which written subtable an old subtable with a non-empty inner map becomes. -/
+theorem subsetSubs_get (rm : List Nat) : ∀ (ims : List (List Nat)) (subs : List SubIn)
+    (outs : List SubTable), subsetSubs rm subs ims = .ok outs →
+    ∀ j im, ims[j]? = some im → im.length ≠ 0 →
+      ∃ st o, subs[j]? = some (SubIn.ok st) ∧ subsetVarData st im rm = .ok o ∧
+        outs[usedBefore ims j]? = some o := by
+  intro ims
+  induction ims with
+  | nil => intro subs outs _ j im h; simp at h
+  | cons i0 ims ih =>
+    intro subs outs h j im hj him
+    cases subs with
+    | nil =>
+      rw [subsetSubs] at h
+      split at h
+      · rename_i h0
+        cases j with
+        | zero => simp at hj; subst hj; exact absurd h0 him
+        | succ j =>
+          obtain ⟨st, o, h1, _⟩ := ih [] outs h j im (by simpa using hj) him
+          simp at h1
+      · cases h
+    | cons s ss =>
+      have hskip : i0.length = 0 → subsetSubs rm ss ims = .ok outs := by
+        intro h0
+        cases s <;> simpa [subsetSubs, h0] using h
+      by_cases h0 : i0.length = 0
+      · cases j with
+        | zero => simp at hj; subst hj; exact absurd h0 him
+        | succ j =>
+          obtain ⟨st, o, h1, h2, h3⟩ := ih ss outs (hskip h0) j im (by simpa using hj) him
+          refine ⟨st, o, by simpa using h1, h2, ?_⟩
+          rw [usedBefore]; simp [h0, h3]
+      · cases s with
+        | ok st =>
+          simp only [subsetSubs, h0, if_false, bind, Except.bind, pure, Except.pure] at h
+          split at h
+          · cases h
+          · rename_i o ho
+            split at h
+            · cases h
+            · rename_i rest hrest
+              simp only [Except.ok.injEq] at h
+              subst h
+              cases j with
+              | zero =>
+                simp at hj; subst hj
+                exact ⟨st, o, by simp, ho, by simp [usedBefore]⟩
+              | succ j =>
+                obtain ⟨st', o', h1, h2, h3⟩ := ih ss rest hrest j im (by simpa using hj) him
+                refine ⟨st', o', by simpa using h1, h2, ?_⟩
+                rw [usedBefore]; simp only [h0, if_false]
+                rw [Nat.add_comm]; simpa using h3
+        | null => simp [subsetSubs, h0, throw, throwThe, MonadExceptOf.throw] at h
+        | bad => simp [subsetSubs, h0, throw, throwThe, MonadExceptOf.throw] at h
+
+
 end FontVerif.SubsetHvar
